@@ -414,6 +414,12 @@ def run(w: World, rep: Report):
               why='' if ok else 'run_tape can stop before its tape has terminated (break / return / swallowed exception '
               'inside the fetch loop)')
 
+    from .report import depend
+    depend(rep, w, 'rules_c06', ('C06.R6',), 'C01.TD6',
+           'a DEF of a later script takes effect whatever earlier scripts defined (C06.R6 re-evaluated): an earlier definition cannot turn a later DEF into a no-op', floor=3)
+    depend(rep, w, 'rules_c07', ('C07.R4c',), 'C01.TD7',
+           'the call budget is one budget for the whole list (documented: enforced across the total execution): each '
+           'further tape continues from the count of the tape that ran last (C07.R4c re-evaluated)', floor=1)
     rep.explanation = (
         'Decides the structural clauses of C01: (R1) typestate proof that the RETURN control '
         'flag is clear when each later script starts, so state left by an earlier script '
